@@ -148,6 +148,84 @@ func structuralObligations(w *World, s StructSpec, run *checkRun) []*Obligation 
 					fmt.Sprintf("%s calls sink %s: it must be under a claimed contract with 'call %s assert ...'", name, sink, sink)))
 			}
 		}
+	case "field_from_call":
+		// for every value of struct s.Arg built in the package whose field s.Arg2 (e.g. Type) is the constant s.Func's
+		// selector value, the field named in What... (see spec): Sinks[0] = discriminating field, Sinks[1] = its constant,
+		// Sinks[2] = constrained field, Sinks[3] = function whose result it must be.
+		if len(s.Sinks) != 4 {
+			run.fail("structural", "field_from_call needs [discriminator field, constant, constrained field, function]", nil, "")
+			break
+		}
+		dfield, dconst, cfield, fnName := s.Sinks[0], s.Sinks[1], s.Sinks[2], s.Sinks[3]
+		found := 0
+		for _, f := range allFunctions(w, path) {
+			n := 0
+			for _, b := range f.Blocks {
+				for _, in := range b.Instrs {
+					a, ok := in.(*ssa.Alloc)
+					if !ok {
+						continue
+					}
+					named, ok := a.Type().Underlying().(*types.Pointer).Elem().(*types.Named)
+					if !ok || named.Obj().Name() != s.Arg {
+						continue
+					}
+					st := named.Underlying().(*types.Struct)
+					isDisc, okField, dyn := false, false, false
+					if refs := a.Referrers(); refs != nil {
+						for _, r := range *refs {
+							fa, ok := r.(*ssa.FieldAddr)
+							if !ok {
+								continue
+							}
+							fname := st.Field(fa.Field).Name()
+							if frefs := fa.Referrers(); frefs != nil {
+								for _, fr := range *frefs {
+									store, ok := fr.(*ssa.Store)
+									if !ok || store.Addr != ssa.Value(fa) {
+										continue
+									}
+									switch fname {
+									case dfield:
+										if c, ok := store.Val.(*ssa.Const); ok {
+											if c.Value != nil && strings.Trim(c.Value.ExactString(), "\"") == dconst {
+												isDisc = true
+											}
+										} else {
+											dyn = true
+										}
+									case cfield:
+										v := store.Val
+										if mi, ok := v.(*ssa.MakeInterface); ok {
+											v = mi.X
+										}
+										if call, ok := v.(*ssa.Call); ok {
+											if callee, ok := call.Call.Value.(*ssa.Function); ok && shortFuncName(callee) == fnName {
+												okField = true
+											}
+										}
+									}
+								}
+							}
+						}
+					}
+					if isDisc || dyn {
+						n++
+						found++
+						text := fmt.Sprintf("%s{%s: %q} built in %s: %s must be the result of %s", s.Arg, dfield, dconst, shortFuncName(f), cfield, fnName)
+						if dyn {
+							text = fmt.Sprintf("%s built in %s with a non-constant %s: cannot be classified", s.Arg, shortFuncName(f), dfield)
+						}
+						o := constObligation(fmt.Sprintf("%s.%s/%s-%s#%d", base, shortFuncName(f), s.Arg, cfield, n), base+"."+shortFuncName(f), okField && !dyn, text)
+						o.Pos = w.fset.Position(a.Pos())
+						out = append(out, o)
+					}
+				}
+			}
+		}
+		if found == 0 {
+			run.fail("structural", fmt.Sprintf("no %s{%s: %q} construction site found in %s (vacuous)", s.Arg, dfield, dconst, s.Pkg), nil, "")
+		}
 	case "readonly_global":
 		// no function other than the package initialiser stores to the global
 		ok := true
